@@ -16,6 +16,7 @@ def run(tier='quick', seed=0, nproc=16):
   jobs = gen.shuffled(jobs)
   res = common.pmap(c03.check_sig, jobs, nproc)
   res.append(common.guard(c03.mutable_defaults_case))
+  res.append(common.guard(c03.explicit_none_case))
   return common.merge(
       res, 'layerb.c03',
       rule='exhaustive enumeration: signature shape x canonical store x get/set/del by name, index, '
